@@ -41,6 +41,7 @@ type c08Case struct {
 	Offset  int    `json:"offset"` // -1 = no resume data
 	Preview bool   `json:"preview"`
 	OwnRoot bool   `json:"ownroot"` // the account has its own file root; the server-wide root holds a different file of the same name
+	Partial bool   `json:"partial"` // only a partial upload of the name exists (it is listed under the final name): refused, or served as what it is
 }
 
 func c08Data(n int) []byte {
@@ -69,7 +70,11 @@ func c08Run(w *explore.Worker, c c08Case) {
 					root = filepath.Join(filepath.Dir(root), "Rroot")
 					_ = os.MkdirAll(root, 0755)
 				}
-				_ = os.WriteFile(filepath.Join(root, c.Disk), data, 0644)
+				if c.Partial {
+					_ = os.WriteFile(filepath.Join(root, c.Disk+".incomplete"), data, 0644)
+				} else {
+					_ = os.WriteFile(filepath.Join(root, c.Disk), data, 0644)
+				}
 				mk := func(comment string, noSize bool) {
 					f := ref.NewInfoFork(c.Disk, "TEXT", "ttxt", comment)
 					f.NoCommentSize = noSize
@@ -112,6 +117,10 @@ func c08Run(w *explore.Worker, c c08Case) {
 		id := u.Req(ref.TDownloadFile, fs...)
 		world.Quiet()
 		rep := u.Reply(id)
+		if c.Partial && rep != nil && rep.Err != 0 {
+			w.Outcome(fmt.Sprintf("partial %d refused", sizeClass(c.Size)))
+			return
+		}
 		if rep == nil || rep.Err != 0 {
 			fail("granted-download-refused", fmt.Sprint(rep))
 			return
@@ -237,6 +246,11 @@ func c08Cases(thorough bool) []c08Case {
 				cs = append(cs, c08Case{Size: sz, Name: []byte("f.txt"), Disk: "f.txt", Forks: f, Offset: k})
 			}
 			cs = append(cs, c08Case{Size: sz, Name: []byte("f.txt"), Disk: "f.txt", Forks: f, Offset: -1, Preview: true})
+		}
+	}
+	for _, sz := range []int{1, 400, 40000} {
+		for _, k := range []int{-1, 0, 1} {
+			cs = append(cs, c08Case{Size: sz, Name: []byte("f.txt"), Disk: "f.txt", Forks: "none", Offset: k, Partial: true})
 		}
 	}
 	for _, sz := range []int{0, 8, 513} {
